@@ -1,4 +1,12 @@
-"""SymStr: strings with symbolic characters and lazy atoms (DESIGN 2.2).  Built incrementally."""
+"""SymStr: strings whose items are concrete characters, symbolic code points, or lazy atoms.
+
+`DecAtom(x)` is "the decimal rendering of the non-negative (symbolic) integer x": it is never
+expanded to digits; `int()` of a token that consists of exactly that atom returns x.  Everything a
+parser does with such strings (split, strip, startswith, `in`, slicing off a literal prefix,
+equality, the small regular expressions of aiortc.sdp) is implemented item-wise and forks only
+where a *symbolic character* could equal a delimiter.  (DESIGN 2.2; probe: eager digits made an
+ICE-candidate round trip run > 10 min, atoms: 4 paths.)
+"""
 from __future__ import annotations
 
 import z3
@@ -6,14 +14,47 @@ import z3
 from . import core
 from .bytes_ import SymBytes, mkbytes
 from .core import Unsupported
-from .ints import SymBool, SymInt, _mk, concretize_int
+from .ints import SymBool, SymInt, concretize_int, ite
 
 
+class DecAtom:
+    """Decimal rendering of a non-negative integer (int | SymInt)."""
+
+    __slots__ = ("x",)
+
+    def __init__(self, x):
+        self.x = x
+
+    def __repr__(self):
+        return "<dec %r>" % (self.x,)
+
+
+def _is_char(it):
+    return isinstance(it, (int, SymInt))
+
+
+def _may_be(c, lo, hi):
+    """Could char item c lie in [lo,hi]?  -> True / False / SymBool."""
+    if isinstance(c, int):
+        return lo <= c <= hi
+    if c.hi < lo or c.lo > hi:
+        return False
+    if c.lo >= lo and c.hi <= hi:
+        return True
+    return (c >= lo) & (c <= hi)
+
+
+def _char_eq(c, k: int):
+    if isinstance(c, int):
+        return c == k
+    if c.hi < k or c.lo > k:
+        return False
+    return c == k
+
+
+# ------------------------------------------------------------------------------- UTF-8
 def _decode_utf8_items(items):
-    """Real UTF-8 decoder over (possibly symbolic) bytes; forks on lead-byte class.
-
-    Returns a list of code points (int | SymInt); raises UnicodeDecodeError where CPython does.
-    """
+    """Real UTF-8 decoder over (possibly symbolic) bytes; forks on lead-byte class."""
     out = []
     i = 0
     n = len(items)
@@ -107,6 +148,8 @@ def encode_cps(cps, encoding="utf-8"):
     enc = encoding.lower().replace("-", "").replace("_", "")
     out = []
     for i, c in enumerate(cps):
+        if isinstance(c, DecAtom):
+            raise Unsupported("encode of a string with a decimal atom")
         if enc == "ascii":
             if not (c < 0x80):
                 raise UnicodeEncodeError("ascii", "?", i, i + 1, "ordinal not in range(128)")
@@ -133,12 +176,23 @@ def encode_cps(cps, encoding="utf-8"):
     return mkbytes(out)
 
 
+# ------------------------------------------------------------------------------- construction
 def mkstr(cps):
-    """str if all code points are concrete, else SymStr."""
+    """str if all items are concrete characters, else SymStr (atoms of concrete ints are rendered)."""
+    out = []
+    sym = False
     for c in cps:
-        if not isinstance(c, int):
-            return SymStr(list(cps))
-    return "".join(chr(c) for c in cps)
+        if isinstance(c, DecAtom):
+            if isinstance(c.x, int):
+                out.extend(ord(ch) for ch in str(c.x))
+                continue
+            sym = True
+        elif not isinstance(c, int):
+            sym = True
+        out.append(c)
+    if sym:
+        return SymStr(out)
+    return "".join(chr(c) for c in out)
 
 
 def cps_of(s):
@@ -149,15 +203,105 @@ def cps_of(s):
     return None
 
 
+def str_of(x):
+    """str(x) for a symbolic number."""
+    if isinstance(x, SymBool):
+        raise Unsupported("str() of a symbolic bool")
+    if isinstance(x, SymInt):
+        if x.lo < 0:
+            if bool(x < 0):
+                return mkstr([ord("-"), DecAtom(-x)])
+        return SymStr([DecAtom(x)])
+    raise Unsupported("str() of %s" % type(x).__name__)
+
+
+DIGITS = (0x30, 0x39)
+WS = (0x20, 0x09, 0x0A, 0x0B, 0x0C, 0x0D)
+
+
+def _is_ws(c):
+    """Is char item c whitespace? (forks if undecided)"""
+    if isinstance(c, DecAtom):
+        return False
+    if isinstance(c, int):
+        return c in WS or c in (0x1C, 0x1D, 0x1E, 0x1F, 0x85, 0xA0)
+    r = False
+    for w in WS:
+        e = _char_eq(c, w)
+        if e is not False:
+            if bool(e):
+                return True
+    return r
+
+
+def _items_eq(a, b):
+    """Equality of two item lists -> bool | SymBool (atoms aligned with atoms or digit runs)."""
+    conds = []
+    i = j = 0
+    na, nb = len(a), len(b)
+    while i < na or j < nb:
+        if i >= na or j >= nb:
+            return False
+        x, y = a[i], b[j]
+        xa, ya = isinstance(x, DecAtom), isinstance(y, DecAtom)
+        if xa and ya:
+            conds.append(x.x == y.x)
+            i += 1
+            j += 1
+            continue
+        if xa or ya:
+            atom, other, k = (x, b, j) if xa else (y, a, i)
+            run = []
+            while k < len(other) and isinstance(other[k], int) and DIGITS[0] <= other[k] <= DIGITS[1]:
+                run.append(other[k])
+                k += 1
+            if k < len(other) and isinstance(other[k], SymInt) and _may_be(other[k], *DIGITS) is not False:
+                raise Unsupported("decimal atom compared with symbolic digits")
+            if k < len(other) and isinstance(other[k], DecAtom):
+                raise Unsupported("adjacent decimal atoms")
+            if not run or (len(run) > 1 and run[0] == 0x30):
+                return False
+            conds.append(atom.x == int("".join(chr(c) for c in run)))
+            if xa:
+                i += 1
+                j = k
+            else:
+                j += 1
+                i = k
+            continue
+        e = x == y if not (isinstance(x, int) and isinstance(y, int)) else x == y
+        if e is False:
+            return False
+        if e is not True:
+            conds.append(e)
+        i += 1
+        j += 1
+    conds = [c for c in conds if c is not True]
+    for c in conds:
+        if c is False:
+            return False
+    if not conds:
+        return True
+    r = conds[0]
+    for c in conds[1:]:
+        r = r & c
+    return r
+
+
 class SymStr:
-    """String of concrete length; each item a code point (int | SymInt)."""
+    """String of items: code point (int | SymInt) or DecAtom."""
 
     __slots__ = ("cps",)
 
     def __init__(self, cps):
         self.cps = cps
 
+    def _has_atom(self):
+        return any(isinstance(c, DecAtom) for c in self.cps)
+
     def __len__(self):
+        if self._has_atom():
+            raise Unsupported("len() of a string with a decimal atom")
         return len(self.cps)
 
     def __bool__(self):
@@ -167,7 +311,7 @@ class SymStr:
         raise Unsupported("hash of symbolic str")
 
     def __repr__(self):
-        return "<SymStr len=%d>" % len(self.cps)
+        return "<SymStr %d items>" % len(self.cps)
 
     __str__ = __repr__
 
@@ -175,21 +319,55 @@ class SymStr:
         return repr(self)
 
     def __iter__(self):
+        if self._has_atom():
+            raise Unsupported("iteration over a string with a decimal atom")
         for c in self.cps:
             yield mkstr([c])
+
+    def _prefix_chars(self, k):
+        """The first k items must be plain characters."""
+        if k > len(self.cps) or any(isinstance(c, DecAtom) for c in self.cps[:k]):
+            raise Unsupported("index into a decimal atom")
 
     def __getitem__(self, i):
         from .bytes_ import clamp_index
 
-        n = len(self.cps)
         if isinstance(i, slice):
             if i.step not in (None, 1):
-                return mkstr(self.cps[i])
-            start = clamp_index(i.start, n, 0)
-            stop = clamp_index(i.stop, n, n)
-            return mkstr(self.cps[start:stop])
+                raise Unsupported("extended slice of SymStr")
+            if not self._has_atom():
+                n = len(self.cps)
+                start = clamp_index(i.start, n, 0)
+                stop = clamp_index(i.stop, n, n)
+                return mkstr(self.cps[start:stop])
+            start, stop = i.start, i.stop
+            if isinstance(start, (SymInt, SymBool)) or isinstance(stop, (SymInt, SymBool)):
+                raise Unsupported("symbolic slice of a string with a decimal atom")
+            items = self.cps
+            if stop is not None:
+                if stop >= 0:
+                    self._prefix_chars(stop)
+                    items = items[:stop]
+                else:
+                    if any(isinstance(c, DecAtom) for c in items[stop:]):
+                        raise Unsupported("slice end inside a decimal atom")
+                    items = items[:stop]
+            if start is not None:
+                if start >= 0:
+                    if start > len(items) or any(isinstance(c, DecAtom) for c in items[:start]):
+                        raise Unsupported("slice start inside a decimal atom")
+                    items = items[start:]
+                else:
+                    if any(isinstance(c, DecAtom) for c in items[start:]):
+                        raise Unsupported("slice start inside a decimal atom")
+                    items = items[start:]
+            return mkstr(items)
         if isinstance(i, (SymInt, SymBool)):
             i = concretize_int(i)
+        if i >= 0:
+            self._prefix_chars(i + 1)
+        elif any(isinstance(c, DecAtom) for c in self.cps[i:]):
+            raise Unsupported("index into a decimal atom")
         return mkstr([self.cps[i]])
 
     def __add__(self, o):
@@ -208,17 +386,7 @@ class SymStr:
         oc = cps_of(o)
         if oc is None:
             return False
-        if len(oc) != len(self.cps):
-            return False
-        r = True
-        for a, b in zip(self.cps, oc):
-            e = a == b
-            if e is False:
-                return False
-            if e is True:
-                continue
-            r = e if r is True else (r & e)
-        return r
+        return _items_eq(self.cps, oc)
 
     def __ne__(self, o):
         r = self.__eq__(o)
@@ -229,11 +397,13 @@ class SymStr:
     def encode(self, encoding="utf-8", errors="strict"):
         return encode_cps(self.cps, encoding)
 
+    # ---------------------------------------------------------------- case
     def _map_case(self, lo, hi, delta):
-        from .ints import ite
-
         out = []
         for c in self.cps:
+            if isinstance(c, DecAtom):
+                out.append(c)
+                continue
             if isinstance(c, int):
                 m = chr(c).upper() if delta < 0 else chr(c).lower()
                 out.extend(ord(x) for x in m)
@@ -249,10 +419,214 @@ class SymStr:
     def lower(self):
         return self._map_case(0x41, 0x5A, 32)
 
+    # ---------------------------------------------------------------- searching / splitting
+    def _match_at(self, pos, lit):
+        """Does the literal str `lit` occur at item position pos? -> bool (forks)."""
+        items = self.cps
+        if pos + len(lit) > len(items):
+            # a decimal atom may stand for several characters, but never for non-digits
+            pass
+        k = pos
+        for ch in lit:
+            if k >= len(items):
+                return False
+            it = items[k]
+            if isinstance(it, DecAtom):
+                if ch.isdigit():
+                    raise Unsupported("literal digit matched against a decimal atom")
+                return False
+            if not bool(_char_eq(it, ord(ch))):
+                return False
+            k += 1
+        return True
+
+    def startswith(self, prefix, *a):
+        if a:
+            raise Unsupported("startswith with offsets")
+        if isinstance(prefix, tuple):
+            return any(self.startswith(p) for p in prefix)
+        if isinstance(prefix, SymStr):
+            raise Unsupported("startswith(SymStr)")
+        return self._match_at(0, prefix)
+
+    def endswith(self, suffix):
+        if isinstance(suffix, SymStr):
+            raise Unsupported("endswith(SymStr)")
+        n = len(suffix)
+        if n > len(self.cps):
+            return False
+        tail = self.cps[len(self.cps) - n :]
+        return bool(SymStr(tail) == suffix) if any(not isinstance(c, int) for c in tail) else "".join(chr(c) for c in tail) == suffix
+
+    def find(self, sub, start=0):
+        if isinstance(sub, SymStr):
+            raise Unsupported("find(SymStr)")
+        for p in range(start, len(self.cps) - len(sub) + 1):
+            if self._match_at(p, sub):
+                return p  # NB: an item index, only meaningful for atom-free prefixes
+        return -1
+
+    def __contains__(self, sub):
+        if isinstance(sub, SymStr):
+            raise Unsupported("SymStr in SymStr")
+        if sub == "":
+            return True
+        for p in range(0, len(self.cps) - len(sub) + 1):
+            if self._match_at(p, sub):
+                return True
+        return False
+
+    def strip(self, chars=None):
+        if chars is not None:
+            raise Unsupported("strip(chars)")
+        items = list(self.cps)
+        while items and _is_ws(items[0]):
+            items.pop(0)
+        while items and _is_ws(items[-1]):
+            items.pop()
+        return mkstr(items)
+
+    def rstrip(self, chars=None):
+        if chars is not None:
+            raise Unsupported("rstrip(chars)")
+        items = list(self.cps)
+        while items and _is_ws(items[-1]):
+            items.pop()
+        return mkstr(items)
+
+    def lstrip(self, chars=None):
+        if chars is not None:
+            raise Unsupported("lstrip(chars)")
+        items = list(self.cps)
+        while items and _is_ws(items[0]):
+            items.pop(0)
+        return mkstr(items)
+
+    def split(self, sep=None, maxsplit=-1):
+        items = self.cps
+        out = []
+        if sep is None:
+            cur = []
+            n = 0
+            i = 0
+            while i < len(items):
+                it = items[i]
+                if _is_ws(it):
+                    if cur:
+                        out.append(mkstr(cur))
+                        cur = []
+                        n += 1
+                    i += 1
+                    continue
+                if maxsplit >= 0 and n >= maxsplit and not cur:
+                    rest = list(items[i:])
+                    while rest and _is_ws(rest[-1]):
+                        rest.pop()
+                    out.append(mkstr(rest))
+                    return out
+                cur.append(it)
+                i += 1
+            if cur:
+                out.append(mkstr(cur))
+            return out
+        if isinstance(sep, SymStr) or sep == "":
+            raise Unsupported("split on a symbolic / empty separator")
+        cur = []
+        i = 0
+        n = 0
+        while i < len(items):
+            if (maxsplit < 0 or n < maxsplit) and self._match_at(i, sep):
+                out.append(mkstr(cur))
+                cur = []
+                n += 1
+                i += len(sep)
+                continue
+            cur.append(items[i])
+            i += 1
+        out.append(mkstr(cur))
+        return out
+
+    def splitlines(self, keepends=False):
+        if keepends:
+            raise Unsupported("splitlines(keepends)")
+        items = self.cps
+        out = []
+        cur = []
+        i = 0
+        while i < len(items):
+            it = items[i]
+            if _is_char(it) and bool(_char_eq(it, 0x0D)):
+                out.append(mkstr(cur))
+                cur = []
+                if i + 1 < len(items) and _is_char(items[i + 1]) and bool(_char_eq(items[i + 1], 0x0A)):
+                    i += 1
+                i += 1
+                continue
+            if _is_char(it) and bool(_char_eq(it, 0x0A)):
+                out.append(mkstr(cur))
+                cur = []
+                i += 1
+                continue
+            cur.append(it)
+            i += 1
+        if cur:
+            out.append(mkstr(cur))
+        return out
+
+    def isdigit(self):
+        if not self.cps:
+            return False
+        for it in self.cps:
+            if isinstance(it, DecAtom):
+                continue
+            if not bool(_may_be(it, *DIGITS)):
+                return False
+        return True
+
+    # ---------------------------------------------------------------- conversions
+    def sx_int(self):
+        return str_to_int(self)
+
+    def sx_int_base(self, base=10):
+        if base != 10:
+            raise Unsupported("int(SymStr, base)")
+        return str_to_int(self)
+
     def sx_concretize(self, m):
         from .conv import concretize
 
-        return "".join(chr(concretize(c, m)) for c in self.cps)
+        out = []
+        for c in self.cps:
+            if isinstance(c, DecAtom):
+                out.append(str(concretize(c.x, m)))
+            else:
+                out.append(chr(concretize(c, m)))
+        return "".join(out)
+
+
+def str_to_int(s):
+    items = list(s.cps)
+    while items and _is_ws(items[0]):
+        items.pop(0)
+    while items and _is_ws(items[-1]):
+        items.pop()
+    if len(items) == 1 and isinstance(items[0], DecAtom):
+        return items[0].x
+    if not items:
+        raise ValueError("invalid literal for int() with base 10: ''")
+    if any(isinstance(c, DecAtom) for c in items):
+        raise Unsupported("int() of a decimal atom mixed with other characters")
+    # symbolic characters: a digit string of concrete length
+    neg = False
+    if isinstance(items[0], int) and items[0] in (0x2B, 0x2D):
+        neg = items[0] == 0x2D
+        items = items[1:]
+    val = 0
+    for c in items:
+        if not bool(_may_be(c, *DIGITS)):
+            raise ValueError("invalid literal for int() with base 10")
+        val = val * 10 + (c - 0x30)
+    return -val if neg else val
 
 
 def str_join(sep, seq):
@@ -261,25 +635,42 @@ def str_join(sep, seq):
     for i, x in enumerate(seq):
         xc = cps_of(x)
         if xc is None:
-            raise TypeError("sequence item %d: expected str instance" % i)
+            raise TypeError("sequence item %d: expected str instance, %s found" % (i, type(x).__name__))
         if i:
             out.extend(sc)
         out.extend(xc)
     return mkstr(out)
 
 
+def to_items(v, conv=None):
+    """Items of str(v) for f-strings / %-formatting."""
+    from .shims import sx_str
+
+    if conv == ord("r"):
+        if isinstance(v, (SymStr, SymInt, SymBool)):
+            raise Unsupported("repr of a proxy in an f-string")
+        return cps_of(repr(v))
+    s = sx_str(v)
+    c = cps_of(s)
+    if c is None:
+        raise Unsupported("cannot render %s" % type(v).__name__)
+    return c
+
+
 def fstr_build(parts):
-    """f-string with symbolic parts.  Placeholder rendering until the SDP work needs content."""
+    """f-string with symbolic parts."""
     out = []
     for p in parts:
         if isinstance(p, tuple):
             v, conv, spec = p
-            if isinstance(v, SymStr) and not spec:
-                out.extend(v.cps)
-            elif isinstance(v, (SymInt, SymBool, SymBytes)) or type(v).__name__ == "SymRatio":
-                out.extend(ord(c) for c in "<sym>")
-            else:
+            if spec:
+                if isinstance(v, (SymStr, SymInt, SymBool)) or type(v).__name__ == "SymRatio":
+                    raise Unsupported("format spec on a proxy")
                 out.extend(ord(c) for c in format(v, spec))
+            elif type(v).__name__ == "SymRatio":
+                out.extend(ord(c) for c in "<ratio>")
+            else:
+                out.extend(to_items(v, conv if conv not in (-1, None) else None))
         else:
             out.extend(ord(c) for c in p)
     return mkstr(out)
@@ -290,8 +681,3 @@ def percent_build(fmt, arg):
         return fmt % arg
     except TypeError:
         return fmt
-
-
-def str_of(x):
-    """str(x) for a symbolic number: decimal rendering (lazy atom once C09 needs it)."""
-    raise Unsupported("str() of a symbolic number")
